@@ -265,14 +265,12 @@ class Environment:
                 # Until event has already been processed.
                 return until.value
 
-            # if until is an event and it has not been processed.
-            until.callbacks.append(StopSimulation.callback)
-
         try:
-            while True:
+            # Stop right after the until event has been processed, i.e. after
+            # all of its callbacks have been called, including those of
+            # processes that started waiting for it after run() was called.
+            while until is None or until.callbacks is not None:
                 self.step()
-        except StopSimulation as exc:
-            return exc.args[0]  # == until.value
         except EmptySchedule:
             if until is not None:
                 assert not until.triggered
@@ -280,4 +278,7 @@ class Environment:
                     f'No scheduled events left but "until" event was not '
                     f'triggered: {until}'
                 )
-        return None
+            return None
+        if until._ok:
+            return until._value
+        raise until._value
